@@ -262,5 +262,5 @@ def run(report, findings):
                 "and 4 new frames; every step is compared with the same operation in a pristine forked process, and after every step "
                 "all existing designs, earlier results and the caller's frames are compared with their snapshots; distinct = distinct sequences",
         "samples": [TARGETED[1], seqs[-1]], "reference_operations": len(refs.cache)})
-    report.assumptions = ["'fresh process-state' is a forked child that has imported formulae but executed no operation",
-                          "user callables reached from formulas are not part of the pool"]
+    report.assumptions = list(dict.fromkeys(list(report.assumptions) + ["'fresh process-state' is a forked child that has imported formulae but executed no operation",
+                          "user callables reached from formulas are not part of the pool"]))
